@@ -284,9 +284,13 @@ _H2 = load.exception_hierarchy()
 lookup_warning_contracts("C02", sorted(n for n, anc in _H2.items() if "LiquidError" in anc and "LiquidInterrupt" not in anc and n != "LiquidInterrupt"))
 
 
+import contracts.C02_nodes as _nodes  # noqa: E402
+
+_nodes.register("C02")
+
 not_covered("C02", "RecursionError (C09) and MemoryError", "babel/dateutil internals beyond their assumed exception sets; custom tags/filters",
             "array filters are proved for a scalar left value and for arrays with a spine of 0..2 (thorough; quick: 0..1 for where/reject/find/find_index/has/sum) arbitrary items; longer arrays, a left value that is a record, range or drop, and sort_numeric / date are covered by the bounded fuzz only",
-            "the interpretive layer (node render methods, parser) is covered by the bounded fuzz, not by per-function raises contracts")
+            "node render methods: the escape lemma is proved for 25 node classes (sync and async; contracts/C02_nodes.py) with sub-expressions, child blocks and template loading as arbitrary callees that return or raise Liquid errors; not reached: " + "; ".join(f"{k[1]} ({v})" for k, v in _nodes.NOT_REACHED.items()) + "; the parser layer is covered by the bounded fuzz")
 
 bounded("C02", "bounded/C02.py")
 
